@@ -1,54 +1,10 @@
 /-
   The expression theorem with calls, by induction over the expression.
 -/
-import TshVerif.Lemmas.Sem2Expr
+import TshVerif.Lemmas.Sem2Slice
 namespace Tsh.Sem2
 open Tsh Tsh.Tr Tsh.Bash Tsh.Sem Tsh.Sem2.Src
 open Tsh.Sem.Src (Val Env)
-
-/-- only the single-operand results of an evaluation -/
-def single (src : Nat → SCfg → Option (R (List Opd))) : Nat → SCfg → Option (R (List Opd)) :=
-  fun f c => match src f c with
-    | some (.ok [o] c1) => some (.ok [o] c1)
-    | some (.exit k c1) => some (.exit k c1)
-    | _ => none
-
-theorem single_ok {src : Nat → SCfg → Option (R (List Opd))} {f : Nat} {c c1 : SCfg} {o : Opd} (h : src f c = some (.ok [o] c1)) :
-    single src f c = some (.ok [o] c1) := by simp [single, h]
-
-theorem single_exit {src : Nat → SCfg → Option (R (List Opd))} {f : Nat} {c c1 : SCfg} {k : Nat} (h : src f c = some (.exit k c1)) :
-    single src f c = some (.exit k c1) := by simp [single, h]
-
-theorem esim_first {ctx : Ctx} {T : List FEntry} {B : Nat} {src : Nat → SCfg → Option (R (List Opd))} {new : List Line} {lo n : Nat}
-    {a : List String} (h : ESim ctx T B src new lo n a) : ESim ctx T B (single src) new lo n [firstValue a] := by
-  refine ⟨h.lines, ?_⟩
-  intro fuel c res hs m hi
-  simp only [single] at hs
-  split at hs
-  · rename_i o c1 hsrc
-    simp only [Option.some.injEq] at hs
-    subst hs
-    obtain ⟨m1, ex, hi1, hc1, hk1, hh⟩ := h.run fuel c _ hsrc m hi
-    refine ⟨m1, ex, hi1, hc1, hk1, fun _ => ?_⟩
-    have hh' := hh rfl
-    match a, hh' with
-    | [t], hh' => exact hh'
-    | [], hh' => exact hh'.elim
-    | _ :: _ :: _, hh' => exact hh'.2.elim
-  · rename_i k c1 hsrc
-    simp only [Option.some.injEq] at hs
-    subst hs
-    exact h.run fuel c _ hsrc m hi
-  · simp at hs
-
-/-- a simulation transfers along a reindexing of the source evaluation -/
-theorem esim_reindex {ctx : Ctx} {T : List FEntry} {B : Nat} {src src' : Nat → SCfg → Option (R (List Opd))} {new : List Line} {lo n : Nat}
-    {ts : List String} (h : ESim ctx T B src new lo n ts) (hr : ∀ fuel c res, src' fuel c = some res → ∃ f, src f c = some res) :
-    ESim ctx T B src' new lo n ts := by
-  refine ⟨h.lines, ?_⟩
-  intro fuel c res hs m hi
-  obtain ⟨f, hf⟩ := hr fuel c res hs
-  exact h.run f c res hf m hi
 
 theorem copyLines_ctx (s : St) : ∀ (n i k : Nat), C02.copyLines s n i k = copyCmdLines (ctxOf s) n i k
   | 0, _, _ => rfl
@@ -188,12 +144,12 @@ mutual
 theorem expr_semF {ctx : Ctx} {T : List FEntry} {B : Nat} (hT : TableOK T) (hctx : CtxOK ctx T B) :
     ∀ (e : Expr) (s : St) (r : List String) (s' : St), fragE (tnames T) e = true → ctxOf s = ctx →
       Tr.evalExpr conv e true s = .ok (r, s') →
-      ∃ new n, s' = adv s new n ∧ ESim ctx T B (fun f c => evalE f e c) new s.varCounter n r
+      ∃ new n rq, s' = reqSt (adv s new n) rq ∧ ESim ctx T B (fun f c => evalE f e c) new s.varCounter n r
   | .boolLit b, s, r, s', _, hc, h => by
     unfold Tr.evalExpr at h
     obtain ⟨er, es⟩ := pure_ok h
     subst er
-    refine ⟨[], 0, es, esim_leaf ctx T B _ _ _ ?_⟩
+    refine ⟨[], 0, Req.none, by rw [es, reqSt_none]; rfl, esim_leaf ctx T B _ _ _ ?_⟩
     intro fuel c res hs
     cases fuel with
     | zero => simp [evalE] at hs
@@ -204,7 +160,7 @@ theorem expr_semF {ctx : Ctx} {T : List FEntry} {B : Nat} (hT : TableOK T) (hctx
     unfold Tr.evalExpr at h
     obtain ⟨er, es⟩ := pure_ok h
     subst er
-    refine ⟨[], 0, es, esim_leaf ctx T B _ _ _ ?_⟩
+    refine ⟨[], 0, Req.none, by rw [es, reqSt_none]; rfl, esim_leaf ctx T B _ _ _ ?_⟩
     intro fuel c res hs
     cases fuel with
     | zero => simp [evalE] at hs
@@ -221,7 +177,7 @@ theorem expr_semF {ctx : Ctx} {T : List FEntry} {B : Nat} (hT : TableOK T) (hctx
     have h1' : (pure (stringToString lit) : BM String) s = .ok (t, s1) := h1
     obtain ⟨et, es1⟩ := pure_ok h1'
     subst er; subst et
-    refine ⟨[], 0, by rw [es, es1]; rfl, esim_leaf ctx T B _ _ _ ?_⟩
+    refine ⟨[], 0, Req.none, by rw [es, es1, reqSt_none]; rfl, esim_leaf ctx T B _ _ _ ?_⟩
     intro fuel c res hs
     cases fuel with
     | zero => simp [evalE] at hs
@@ -235,7 +191,8 @@ theorem expr_semF {ctx : Ctx} {T : List FEntry} {B : Nat} (hT : TableOK T) (hctx
         show Complete ρ (stringToString lit).toList lit.toList
         rw [this]
         apply complete_literal
-        simpa [Sem.Src.plainLit, List.all_eq_true] using hp
+        have hp' : ∀ c ∈ lit.toList, (¬c = '$' ∧ ¬c = '`') ∧ c.toNat < 128 := by simpa [Sem.Src.plainLit, List.all_eq_true] using hp
+        exact fun c hc => by simpa using (hp' c hc).1
       · simp at hs
   | .varEval x, s, r, s', _, hc, h => by
     unfold Tr.evalExpr at h
@@ -246,7 +203,7 @@ theorem expr_semF {ctx : Ctx} {T : List FEntry} {B : Nat} (hT : TableOK T) (hctx
     injection h1' with h1'
     injection h1' with e1 e2
     subst er; subst e1
-    refine ⟨[], 0, by rw [es, ← e2]; rfl, esim_leaf ctx T B _ _ _ ?_⟩
+    refine ⟨[], 0, Req.none, by rw [es, ← e2, reqSt_none]; rfl, esim_leaf ctx T B _ _ _ ?_⟩
     intro fuel c res hs
     cases fuel with
     | zero => simp [evalE] at hs
@@ -255,8 +212,8 @@ theorem expr_semF {ctx : Ctx} {T : List FEntry} {B : Nat} (hT : TableOK T) (hctx
       exact ⟨_, hs.symm, fun ρ0 => ⟨holdsF_var ctx x _ ρ0, trivial⟩⟩
   | .group x, s, r, s', hf, hc, h => by
     unfold Tr.evalExpr at h
-    obtain ⟨new, n, e1, sim⟩ := expr_semF hT hctx x s r s' (by simpa [fragE] using hf) hc h
-    refine ⟨new, n, e1, esim_reindex sim ?_⟩
+    obtain ⟨new, n, rq, e1, sim⟩ := expr_semF hT hctx x s r s' (by simpa [fragE] using hf) hc h
+    refine ⟨new, n, rq, e1, esim_reindex sim ?_⟩
     intro fuel c res hs
     cases fuel with
     | zero => simp [evalE] at hs
@@ -265,9 +222,9 @@ theorem expr_semF {ctx : Ctx} {T : List FEntry} {B : Nat} (hT : TableOK T) (hctx
     unfold Tr.evalExpr at h
     obtain ⟨a, s1, ha, h⟩ := bind_ok h
     obtain ⟨er, es⟩ := pure_ok h
-    obtain ⟨new, n, e1, sim⟩ := expr_semF hT hctx x s a s1 (by simpa [fragE] using hf) hc ha
+    obtain ⟨new, n, rq, e1, sim⟩ := expr_semF hT hctx x s a s1 (by simpa [fragE] using hf) hc ha
     subst er
-    refine ⟨new, n, by rw [es, e1], ?_⟩
+    refine ⟨new, n, rq, by rw [es, e1], ?_⟩
     have sim1 := esim_first sim
     refine ⟨sim.lines, ?_⟩
     intro fuel c res hs m hi
@@ -291,17 +248,17 @@ theorem expr_semF {ctx : Ctx} {T : List FEntry} {B : Nat} (hT : TableOK T) (hctx
     obtain ⟨a, s1, ha, h⟩ := bind_ok h
     obtain ⟨t, s2, hop, h⟩ := bind_ok h
     obtain ⟨er, es⟩ := pure_ok h
-    obtain ⟨new, n, e1, sim⟩ := expr_semF hT hctx x s a s1 (by simpa [fragE] using hf) hc ha
+    obtain ⟨new, n, rq, e1, sim⟩ := expr_semF hT hctx x s a s1 (by simpa [fragE] using hf) hc ha
     subst e1
-    have hop' : unaryOp (firstValue a) op (adv s new n) = .ok (t, s2) := hop
+    have hop' : unaryOp (firstValue a) op (reqSt (adv s new n) rq) = .ok (t, s2) := hop
     by_cases hopb : op = "!"
     · subst hopb
       rw [unaryOp_specF] at hop'
       injection hop' with hop'
       injection hop' with e2 e3
       subst er; subst e2
-      rw [ctxOf_adv, hc] at e3 ⊢
-      refine ⟨_ :: new, n + 1, by rw [es, ← e3, adv_adv]; rfl, ?_⟩
+      rw [ctxOf_reqSt, ctxOf_adv, hc] at e3 ⊢
+      refine ⟨_ :: new, n + 1, rq, by rw [es, ← e3, adv_reqSt, adv_adv]; rfl, ?_⟩
       refine esim_unary (esim_first sim) _ rfl (sline_helper _ _ _ _ _ rfl rfl) ?_
       intro fuel c res hs
       rcases src_unary hs with ⟨f, k, c1, hx, hr⟩ | ⟨f, o, c1, b, hx, hb, hr⟩
@@ -318,16 +275,16 @@ theorem expr_semF {ctx : Ctx} {T : List FEntry} {B : Nat} (hT : TableOK T) (hctx
     obtain ⟨b, s2, hb, h⟩ := bind_ok h
     obtain ⟨t, s3, hop, h⟩ := bind_ok h
     obtain ⟨er, es⟩ := pure_ok h
-    obtain ⟨newL, nL, e1, simL⟩ := expr_semF hT hctx l s a s1 hf.1 hc ha
+    obtain ⟨newL, nL, rL, e1, simL⟩ := expr_semF hT hctx l s a s1 hf.1 hc ha
     subst e1
-    obtain ⟨newR, nR, e2, simR⟩ := expr_semF hT hctx r (adv s newL nL) b s2 hf.2 (by rw [ctxOf_adv]; exact hc) hb
+    obtain ⟨newR, nR, rR, e2, simR⟩ := expr_semF hT hctx r (reqSt (adv s newL nL) rL) b s2 hf.2 hc hb
     subst e2
-    have hop' : binaryOp (firstValue a) op (firstValue b) (Expr.valueType l) (adv (adv s newL nL) newR nR) = .ok (t, s3) := hop
+    have hop' : binaryOp (firstValue a) op (firstValue b) (Expr.valueType l) (reqSt (adv (reqSt (adv s newL nL) rL) newR nR) rR) = .ok (t, s3) := hop
     have hsl : (Expr.valueType l).isSlice = false := by
       by_cases hx : (Expr.valueType l).isSlice = true
       · simp [binaryOp, bind, nextHelperVar, hx, notAllowedBin, Tr.fail] at hop'
       · simpa using hx
-    have hvc : (adv (adv s newL nL) newR nR).varCounter = s.varCounter + nL + nR := rfl
+    have hvc : (reqSt (adv (reqSt (adv s newL nL) rL) newR nR) rR).varCounter = s.varCounter + nL + nR := rfl
     cases hdt : (Expr.valueType l).dt with
     | int =>
       by_cases ho : (op == "*" || op == "/" || op == "%" || op == "+" || op == "-") = true
@@ -335,8 +292,8 @@ theorem expr_semF {ctx : Ctx} {T : List FEntry} {B : Nat} (hT : TableOK T) (hctx
         injection hop' with hop'
         injection hop' with e3 e4
         subst er; subst e3
-        rw [ctxOf_adv, ctxOf_adv, hc, hvc] at e4 ⊢
-        refine ⟨_ :: (newR ++ newL), nL + nR + 1, by rw [es, ← e4, adv_adv, adv_adv]; rfl, ?_⟩
+        rw [ctxOf_reqSt, ctxOf_adv, ctxOf_reqSt, ctxOf_adv, hc, hvc] at e4 ⊢
+        refine ⟨_ :: (newR ++ newL), nL + nR + 1, rL.or rR, by rw [es, ← e4]; simp only [adv_reqSt, reqSt_reqSt, adv_adv]; rfl, ?_⟩
         refine esim_binary (esim_first simL) (esim_first simR) _ rfl (sline_helper _ _ _ _ _ rfl rfl) ?_
         intro fuel c res' hs
         have := two_to_esim (ctx := ctx) (tl := firstValue a) (tr := firstValue b) (k := s.varCounter + nL + nR)
@@ -363,8 +320,8 @@ theorem expr_semF {ctx : Ctx} {T : List FEntry} {B : Nat} (hT : TableOK T) (hctx
         injection hop' with hop'
         injection hop' with e3 e4
         subst er; subst e3
-        rw [ctxOf_adv, ctxOf_adv, hc, hvc] at e4 ⊢
-        refine ⟨_ :: (newR ++ newL), nL + nR + 1, by rw [es, ← e4, adv_adv, adv_adv]; rfl, ?_⟩
+        rw [ctxOf_reqSt, ctxOf_adv, ctxOf_reqSt, ctxOf_adv, hc, hvc] at e4 ⊢
+        refine ⟨_ :: (newR ++ newL), nL + nR + 1, rL.or rR, by rw [es, ← e4]; simp only [adv_reqSt, reqSt_reqSt, adv_adv]; rfl, ?_⟩
         refine esim_binary (esim_first simL) (esim_first simR) _ rfl (sline_helper _ _ _ _ _ rfl rfl) ?_
         intro fuel c res' hs
         have := two_to_esim (ctx := ctx) (tl := firstValue a) (tr := firstValue b) (k := s.varCounter + nL + nR)
@@ -399,13 +356,13 @@ theorem expr_semF {ctx : Ctx} {T : List FEntry} {B : Nat} (hT : TableOK T) (hctx
     obtain ⟨b, s2, hb, h⟩ := bind_ok h
     obtain ⟨t, s3, hop, h⟩ := bind_ok h
     obtain ⟨er, es⟩ := pure_ok h
-    obtain ⟨newL, nL, e1, simL⟩ := expr_semF hT hctx l s a s1 hf.1 hc ha
+    obtain ⟨newL, nL, rL, e1, simL⟩ := expr_semF hT hctx l s a s1 hf.1 hc ha
     subst e1
-    obtain ⟨newR, nR, e2, simR⟩ := expr_semF hT hctx r (adv s newL nL) b s2 hf.2 (by rw [ctxOf_adv]; exact hc) hb
+    obtain ⟨newR, nR, rR, e2, simR⟩ := expr_semF hT hctx r (reqSt (adv s newL nL) rL) b s2 hf.2 hc hb
     subst e2
     have hop' : comparisonOpWith (compareOpString op (Expr.valueType l)) (firstValue a) op (firstValue b) (Expr.valueType l)
-        (adv (adv s newL nL) newR nR) = .ok (t, s3) := hop
-    have hvc : (adv (adv s newL nL) newR nR).varCounter = s.varCounter + nL + nR := rfl
+        (reqSt (adv (reqSt (adv s newL nL) rL) newR nR) rR) = .ok (t, s3) := hop
+    have hvc : (reqSt (adv (reqSt (adv s newL nL) rL) newR nR) rR).varCounter = s.varCounter + nL + nR := rfl
     have hos : ((compareOpString op (Expr.valueType l)).length == 0) = false := by
       by_cases hx : ((compareOpString op (Expr.valueType l)).length == 0) = true
       · simp [comparisonOpWith, hx, Tr.fail] at hop'
@@ -414,8 +371,8 @@ theorem expr_semF {ctx : Ctx} {T : List FEntry} {B : Nat} (hT : TableOK T) (hctx
     injection hop' with hop'
     injection hop' with e3 e4
     subst er; subst e3
-    rw [ctxOf_adv, ctxOf_adv, hc, hvc] at e4 ⊢
-    refine ⟨_ :: (newR ++ newL), nL + nR + 1, by rw [es, ← e4, adv_adv, adv_adv]; rfl, ?_⟩
+    rw [ctxOf_reqSt, ctxOf_adv, ctxOf_reqSt, ctxOf_adv, hc, hvc] at e4 ⊢
+    refine ⟨_ :: (newR ++ newL), nL + nR + 1, rL.or rR, by rw [es, ← e4]; simp only [adv_reqSt, reqSt_reqSt, adv_adv]; rfl, ?_⟩
     refine esim_binary (esim_first simL) (esim_first simR) _ rfl (sline_helper _ _ _ _ _ rfl rfl) ?_
     intro fuel c res' hs
     have := two_to_esim (ctx := ctx) (tl := firstValue a) (tr := firstValue b) (k := s.varCounter + nL + nR)
@@ -502,12 +459,12 @@ theorem expr_semF {ctx : Ctx} {T : List FEntry} {B : Nat} (hT : TableOK T) (hctx
     obtain ⟨b, s2, hb, h⟩ := bind_ok h
     obtain ⟨t, s3, hop, h⟩ := bind_ok h
     obtain ⟨er, es⟩ := pure_ok h
-    obtain ⟨newL, nL, e1, simL⟩ := expr_semF hT hctx l s a s1 hf.1 hc ha
+    obtain ⟨newL, nL, rL, e1, simL⟩ := expr_semF hT hctx l s a s1 hf.1 hc ha
     subst e1
-    obtain ⟨newR, nR, e2, simR⟩ := expr_semF hT hctx r (adv s newL nL) b s2 hf.2 (by rw [ctxOf_adv]; exact hc) hb
+    obtain ⟨newR, nR, rR, e2, simR⟩ := expr_semF hT hctx r (reqSt (adv s newL nL) rL) b s2 hf.2 hc hb
     subst e2
-    have hop' : logicalOp (firstValue a) op (firstValue b) (adv (adv s newL nL) newR nR) = .ok (t, s3) := hop
-    have hvc : (adv (adv s newL nL) newR nR).varCounter = s.varCounter + nL + nR := rfl
+    have hop' : logicalOp (firstValue a) op (firstValue b) (reqSt (adv (reqSt (adv s newL nL) rL) newR nR) rR) = .ok (t, s3) := hop
+    have hvc : (reqSt (adv (reqSt (adv s newL nL) rL) newR nR) rR).varCounter = s.varCounter + nL + nR := rfl
     have ho : (op == "&&" || op == "||") = true := by
       by_cases hx : (op == "&&" || op == "||") = true
       · exact hx
@@ -516,8 +473,8 @@ theorem expr_semF {ctx : Ctx} {T : List FEntry} {B : Nat} (hT : TableOK T) (hctx
     injection hop' with hop'
     injection hop' with e3 e4
     subst er; subst e3
-    rw [ctxOf_adv, ctxOf_adv, hc, hvc] at e4 ⊢
-    refine ⟨_ :: (newR ++ newL), nL + nR + 1, by rw [es, ← e4, adv_adv, adv_adv]; rfl, ?_⟩
+    rw [ctxOf_reqSt, ctxOf_adv, ctxOf_reqSt, ctxOf_adv, hc, hvc] at e4 ⊢
+    refine ⟨_ :: (newR ++ newL), nL + nR + 1, rL.or rR, by rw [es, ← e4]; simp only [adv_reqSt, reqSt_reqSt, adv_adv]; rfl, ?_⟩
     refine esim_binary (esim_first simL) (esim_first simR) _ rfl (sline_helper _ _ _ _ _ rfl rfl) ?_
     intro fuel c res' hs
     have := two_to_esim (ctx := ctx) (tl := firstValue a) (tr := firstValue b) (k := s.varCounter + nL + nR)
@@ -554,10 +511,10 @@ theorem expr_semF {ctx : Ctx} {T : List FEntry} {B : Nat} (hT : TableOK T) (hctx
     simp only [fragE, Bool.and_eq_true, List.contains_iff_mem] at hf
     obtain ⟨as, s1, ha, g1⟩ := bind_ok h
     obtain ⟨vs, s2, hcall, g2⟩ := bind_ok g1
-    obtain ⟨newA, nA, e1, simA⟩ := args_semF hT hctx args s as s1 hf.2 hc ha
+    obtain ⟨newA, nA, rA, e1, simA⟩ := args_semF hT hctx args s as s1 hf.2 hc ha
     subst e1
     -- the call line and the copies
-    have hcall' : funcCall name as rets true (adv s newA nA) = .ok (vs, s2) := hcall
+    have hcall' : funcCall name as rets true (reqSt (adv s newA nA) rA) = .ok (vs, s2) := hcall
     unfold funcCall at hcall'
     obtain ⟨_, s3, h3, hcall'⟩ := bind_ok hcall'
     have e3 := addLine_ok h3
@@ -587,9 +544,9 @@ theorem expr_semF {ctx : Ctx} {T : List FEntry} {B : Nat} (hT : TableOK T) (hctx
       exact this
     subst hen
     have hs3vc : s3.varCounter = s.varCounter + nA := by rw [e3]; rfl
-    refine ⟨(copyCmdLines ctx rets.length 0 (s.varCounter + nA)).reverse ++ (Line.callFn e.fd.name as :: newA), nA + rets.length, ?_, ?_⟩
+    refine ⟨(copyCmdLines ctx rets.length 0 (s.varCounter + nA)).reverse ++ (Line.callFn e.fd.name as :: newA), nA + rets.length, rA, ?_, ?_⟩
     · rw [es, es2, ← e4, copyLines_ctx, hcx, hs3vc, e3]
-      simp [adv, Nat.add_assoc]
+      simp [adv, reqSt, Nat.add_assoc]
     · subst er
       rw [← eo, copyVals_ctx, hcx, hs3vc]
       refine ⟨?_, ?_⟩
@@ -645,27 +602,225 @@ theorem expr_semF {ctx : Ctx} {T : List FEntry} {B : Nat} (hT : TableOK T) (hctx
           rw [hz]; trivial
         · obtain ⟨m3, exc, ho3⟩ := hexit k rfl
           exact ⟨m3, pre exc (fun hn => by simp at hn) (fun _ => ⟨rfl, rfl⟩), ho3⟩
+  | .sliceEval value index dt, s, res, s', hf, hc, h => by
+    unfold Tr.evalExpr at h
+    simp only [fragE, Bool.and_eq_true] at hf
+    obtain ⟨a, s1, ha, h⟩ := bind_ok h
+    obtain ⟨b, s2, hb, h⟩ := bind_ok h
+    obtain ⟨t, s3, hop, h⟩ := bind_ok h
+    obtain ⟨er, es⟩ := pure_ok h
+    obtain ⟨newL, nL, rL, e1, simL⟩ := expr_semF hT hctx value s a s1 hf.1 hc ha
+    subst e1
+    obtain ⟨newR, nR, rR, e2, simR⟩ := expr_semF hT hctx index (reqSt (adv s newL nL) rL) b s2 hf.2 hc hb
+    subst e2
+    have hop' : sliceEvaluation (firstValue a) (firstValue b) (reqSt (adv (reqSt (adv s newL nL) rL) newR nR) rR) = .ok (t, s3) := hop
+    have hvc : (reqSt (adv (reqSt (adv s newL nL) rL) newR nR) rR).varCounter = s.varCounter + nL + nR := rfl
+    rw [sliceEvaluation_specF] at hop'
+    injection hop' with hop'
+    injection hop' with e3 e4
+    subst er; subst e3
+    rw [ctxOf_reqSt, ctxOf_adv, ctxOf_reqSt, ctxOf_adv, hc, hvc] at e4 ⊢
+    refine ⟨_ :: (newR ++ newL), nL + nR + 1, rL.or rR, by rw [es, ← e4]; simp only [adv_reqSt, reqSt_reqSt, adv_adv]; rfl, ?_⟩
+    refine esim_binary (esim_first simL) (esim_first simR) _ rfl (sline_helper _ _ _ _ _ rfl rfl) ?_
+    intro fuel c res' hs
+    have := two_to_esim (ctx := ctx) (tl := firstValue a) (tr := firstValue b) (k := s.varCounter + nL + nR)
+      (line := .sliceLoad (ctx.hn (s.varCounter + nL + nR)) (firstValue a) (firstValue b))
+      (hname := ctx.hn (s.varCounter + nL + nR)) ?_ (src_sliceEval hs)
+    · rcases this with ⟨f, k, c1, h1, h2⟩ | ⟨f, a', c1, h1, h2⟩
+      · exact Or.inl ⟨f, k, c1, single_exit h1, h2⟩
+      · refine Or.inr ⟨f, a', c1, single_ok h1, ?_⟩
+        rcases h2 with ⟨f', k, c2, h3, h4⟩ | ⟨f', b', c2, w, h3, h4, h5⟩
+        · exact Or.inl ⟨f', k, c2, single_exit h3, h4⟩
+        · exact Or.inr ⟨f', b', c2, w, single_ok h3, h4, h5⟩
+    · intro c2 a' b' w m2 hopf hag h1 h2
+      exact idx_step hopf hag h1 h2 _
+  | .len x, s, res, s', hf, hc, h => by
+    unfold Tr.evalExpr at h
+    obtain ⟨a, s1, ha, h⟩ := bind_ok h
+    obtain ⟨new, n, rq, e1, sim⟩ := expr_semF hT hctx x s a s1 (by simpa [fragE] using hf) hc ha
+    subst e1
+    have hvc : (reqSt (adv s new n) rq).varCounter = s.varCounter + n := rfl
+    by_cases hstr : (Expr.valueType x).isString = true
+    · simp only [hstr, if_true] at h
+      obtain ⟨t, s2, hop, h⟩ := bind_ok h
+      obtain ⟨er, es⟩ := pure_ok h
+      have hop' : stringLen (firstValue a) (reqSt (adv s new n) rq) = .ok (t, s2) := hop
+      rw [stringLen_specF] at hop'
+      injection hop' with hop'
+      injection hop' with e3 e4
+      subst er; subst e3
+      rw [ctxOf_reqSt, ctxOf_adv, hc, hvc] at e4 ⊢
+      refine ⟨[Line.assignStrLen (ctx.hn (s.varCounter + n)) (ctx.hn (s.varCounter + n)), .assign (ctx.hn (s.varCounter + n)) (firstValue a)] ++ new,
+        n + 1, rq, by rw [es, ← e4, adv_reqSt, adv_adv], ?_⟩
+      refine esim_then (k := 1) (esim_first sim)
+        (LinesOK.cons (sline_helper _ _ _ _ _ rfl rfl) (LinesOK.cons (sline_helper _ _ _ _ _ rfl rfl) (LinesOK.nil _ _ _))) ?_
+      intro fuel c res' hs
+      rcases src_len hs with ⟨f, k, c1, hx, hr⟩ | ⟨f, a', c1, hx, hcase⟩
+      · exact Or.inl ⟨f, k, c1, single_exit hx, hr⟩
+      · rcases hcase with ⟨str, hres, _, hr⟩ | ⟨id, _, hns, _⟩
+        · refine Or.inr ⟨f, [a'], c1, _, c1, single_ok hx, hr, ?_⟩
+          intro m1 hi1 hh
+          exact len_str_post hi1 hh.1 hres
+        · rw [hstr] at hns; cases hns
+    · have hstr' : (Expr.valueType x).isString = false := by simpa using hstr
+      simp only [hstr', Bool.false_eq_true, if_false] at h
+      obtain ⟨t, s2, hop, h⟩ := bind_ok h
+      obtain ⟨er, es⟩ := pure_ok h
+      have hop' : sliceLen (firstValue a) (reqSt (adv s new n) rq) = .ok (t, s2) := hop
+      rw [sliceLen_specF] at hop'
+      injection hop' with hop'
+      injection hop' with e3 e4
+      subst er; subst e3
+      rw [ctxOf_reqSt, ctxOf_adv, hc, hvc] at e4 ⊢
+      refine ⟨_ :: new, n + 1, rq, by rw [es, ← e4, adv_reqSt, adv_adv]; rfl, ?_⟩
+      refine esim_unary (esim_first sim) _ rfl (sline_helper _ _ _ _ _ rfl rfl) ?_
+      intro fuel c res' hs
+      rcases src_len hs with ⟨f, k, c1, hx, hr⟩ | ⟨f, a', c1, hx, hcase⟩
+      · exact Or.inl ⟨f, k, c1, single_exit hx, hr⟩
+      · rcases hcase with ⟨str, _, hys, _⟩ | ⟨id, hres, _, hr⟩
+        · rw [hstr'] at hys; cases hys
+        · refine Or.inr ⟨f, a', c1, .int (c1.heap id).length, single_ok hx, hr, ?_⟩
+          intro m1 hag hh
+          exact len_slice_step hag hh hres _
+  | .substr value start none, s, res, s', hf, hc, h => by
+    unfold Tr.evalExpr at h
+    simp only [fragE, Bool.and_eq_true] at hf
+    obtain ⟨a, s1, ha, h⟩ := bind_ok h
+    obtain ⟨v, s2, hv, h⟩ := bind_ok h
+    obtain ⟨t, s3, hop, h⟩ := bind_ok h
+    obtain ⟨er, es⟩ := pure_ok h
+    obtain ⟨newA, nA, rA, e1, simA⟩ := expr_semF hT hctx start s a s1 hf.1 hc ha
+    subst e1
+    obtain ⟨newV, nV, rV, e2, simV⟩ := expr_semF hT hctx value (reqSt (adv s newA nA) rA) v s2 hf.2 hc hv
+    subst e2
+    have hop' : stringSubscript (firstValue v) (firstValue a) (firstValue a) (reqSt (adv (reqSt (adv s newA nA) rA) newV nV) rV) = .ok (t, s3) := hop
+    have hvc : (reqSt (adv (reqSt (adv s newA nA) rA) newV nV) rV).varCounter = s.varCounter + (nA + nV) := Nat.add_assoc _ _ _
+    rw [stringSubscript_specF] at hop'
+    injection hop' with hop'
+    injection hop' with e3 e4
+    subst er; subst e3
+    rw [ctxOf_reqSt, ctxOf_adv, ctxOf_reqSt, ctxOf_adv, hc, hvc] at e4 ⊢
+    have simS : ESim ctx T B (fun f c => evalSeq f [start, value] c) (newV ++ newA) s.varCounter (nA + nV) [firstValue a, firstValue v] := by
+      have := esim_seq_cons (esim_first simA) (esim_seq_cons (esim_first simV) (esim_seq_nil ctx T B (s.varCounter + nA + nV)))
+      simpa using this
+    refine ⟨[Line.assign (ctx.hn (s.varCounter + (nA + nV))) "${_ret}", .ssh (firstValue v) (firstValue a) (firstValue a)] ++ (newV ++ newA),
+      nA + nV + 1, (rA.or rV).or ⟨false, false, true⟩,
+      by rw [es, ← e4]; simp only [adv_reqSt, reqSt_reqSt, adv_adv], ?_⟩
+    refine esim_then (k := 1) simS
+      (LinesOK.cons (sline_helper _ _ _ _ _ rfl rfl) (LinesOK.cons (sline_special3 _ _ _ _ _ _) (LinesOK.nil _ _ _))) ?_
+    intro fuel c res' hs
+    rcases src_substr1 hs with ⟨f, k, c1, hseq, hr⟩ | ⟨f, a', v', c2, i, str, n, hseq, ra, rv, hn, hr⟩
+    · exact Or.inl ⟨f, k, c1, hseq, hr⟩
+    · refine Or.inr ⟨f, [a', v'], c2, _, c2, hseq, hr, ?_⟩
+      intro m1 hi1 hh
+      exact substr_post hi1 hh.2.1 hh.1 hh.1 rv ra ra hn (by simp [natOf])
+  | .substr value start (some stop), s, res, s', hf, hc, h => by
+    unfold Tr.evalExpr at h
+    simp only [fragE, Bool.and_eq_true] at hf
+    obtain ⟨a, s1, ha, h⟩ := bind_ok h
+    obtain ⟨b, s2, hb, h⟩ := bind_ok h
+    obtain ⟨v, s3, hv, h⟩ := bind_ok h
+    obtain ⟨t, s4, hop, h⟩ := bind_ok h
+    obtain ⟨er, es⟩ := pure_ok h
+    obtain ⟨newA, nA, rA, e1, simA⟩ := expr_semF hT hctx start s a s1 hf.1.1 hc ha
+    subst e1
+    obtain ⟨newB, nB, rB, e2, simB⟩ := expr_semF hT hctx stop (reqSt (adv s newA nA) rA) b s2 hf.1.2 hc hb
+    subst e2
+    obtain ⟨newV, nV, rV, e3, simV⟩ := expr_semF hT hctx value (reqSt (adv (reqSt (adv s newA nA) rA) newB nB) rB) v s3 hf.2 hc hv
+    subst e3
+    have hop' : stringSubscript (firstValue v) (firstValue a) (firstValue b)
+        (reqSt (adv (reqSt (adv (reqSt (adv s newA nA) rA) newB nB) rB) newV nV) rV) = .ok (t, s4) := hop
+    have hvc : (reqSt (adv (reqSt (adv (reqSt (adv s newA nA) rA) newB nB) rB) newV nV) rV).varCounter = s.varCounter + (nA + (nB + nV)) := by
+      show s.varCounter + nA + nB + nV = _; omega
+    rw [stringSubscript_specF] at hop'
+    injection hop' with hop'
+    injection hop' with e4 e5
+    subst er; subst e4
+    rw [ctxOf_reqSt, ctxOf_adv, ctxOf_reqSt, ctxOf_adv, ctxOf_reqSt, ctxOf_adv, hc, hvc] at e5 ⊢
+    have simS : ESim ctx T B (fun f c => evalSeq f [start, stop, value] c) ((newV ++ newB) ++ newA) s.varCounter (nA + (nB + nV))
+        [firstValue a, firstValue b, firstValue v] := by
+      have := esim_seq_cons (esim_first simA) (esim_seq_cons (esim_first simB) (esim_seq_cons (esim_first simV)
+        (esim_seq_nil ctx T B (s.varCounter + nA + nB + nV))))
+      simpa using this
+    refine ⟨[Line.assign (ctx.hn (s.varCounter + (nA + (nB + nV)))) "${_ret}", .ssh (firstValue v) (firstValue a) (firstValue b)] ++ ((newV ++ newB) ++ newA),
+      nA + (nB + nV) + 1, ((rA.or rB).or rV).or ⟨false, false, true⟩,
+      by rw [es, ← e5]; simp only [adv_reqSt, reqSt_reqSt, adv_adv, List.append_assoc, Nat.add_assoc], ?_⟩
+    refine esim_then (k := 1) simS
+      (LinesOK.cons (sline_helper _ _ _ _ _ rfl rfl) (LinesOK.cons (sline_special3 _ _ _ _ _ _) (LinesOK.nil _ _ _))) ?_
+    intro fuel c res' hs
+    rcases src_substr2 hs with ⟨f, k, c1, hseq, hr⟩ | ⟨f, a', b', v', c3, i, j, str, n, l, hseq, ra, rb, rv, hn, hl, hr⟩
+    · exact Or.inl ⟨f, k, c1, hseq, hr⟩
+    · refine Or.inr ⟨f, [a', b', v'], c3, _, c3, hseq, hr, ?_⟩
+      intro m1 hi1 hh
+      exact substr_post hi1 hh.2.2.1 hh.1 hh.2.1 rv ra rb hn hl
+  | .copy dst src, s, res, s', hf, hc, h => by
+    unfold Tr.evalExpr at h
+    simp only [fragE, Bool.and_eq_true] at hf
+    obtain ⟨a, s1, ha, h⟩ := bind_ok h
+    obtain ⟨t, s2, hop, h⟩ := bind_ok h
+    obtain ⟨er, es⟩ := pure_ok h
+    obtain ⟨new, n, rq, e1, sim⟩ := expr_semF hT hctx src s a s1 hf.2 hc ha
+    subst e1
+    have hvc : (reqSt (adv s new n) rq).varCounter = s.varCounter + n := rfl
+    have hop' : copyOp dst.name (firstValue a) dst.global (reqSt (adv s new n) rq) = .ok (t, s2) := hop
+    rw [copyOp_specF] at hop'
+    injection hop' with hop'
+    injection hop' with e3 e4
+    subst er; subst e3
+    rw [ctxOf_reqSt, ctxOf_adv, hc, hvc] at e4 ⊢
+    refine ⟨[Line.assignSliceLen (ctx.hn (s.varCounter + n)) (firstValue a), .sch (ctx.mg dst.name dst.global) (firstValue a)] ++ new,
+      n + 1, rq.or ⟨true, true, false⟩, by rw [es, ← e4]; simp only [adv_reqSt, reqSt_reqSt, adv_adv], ?_⟩
+    refine esim_then (k := 1) (esim_first sim)
+      (LinesOK.cons (sline_helper _ _ _ _ _ rfl rfl) (LinesOK.cons (sline_plain _ _ _ _ rfl rfl) (LinesOK.nil _ _ _))) ?_
+    intro fuel c res' hs
+    rcases src_copy hs with ⟨f, k, c1, hx, hr⟩ | ⟨f, a', c1, sid, did, hx, hres, hdst, hdid, hr⟩
+    · exact Or.inl ⟨f, k, c1, single_exit hx, hr⟩
+    · refine Or.inr ⟨f, [a'], c1, _, _, single_ok hx, hr, ?_⟩
+      intro m1 hi1 hh
+      exact copy_post hi1 hh.1 hres hdst hdid
+  | .sliceNew dt vals, s, res, s', hf, hc, h => by
+    unfold Tr.evalExpr at h
+    simp only [fragE] at hf
+    obtain ⟨as, s1, ha, h⟩ := bind_ok h
+    obtain ⟨t, s2, hop, h⟩ := bind_ok h
+    obtain ⟨er, es⟩ := pure_ok h
+    obtain ⟨newA, nA, rA, e1, simA⟩ := args_semF hT hctx vals s as s1 hf hc ha
+    subst e1
+    have hvc : (reqSt (adv s newA nA) rA).varCounter = s.varCounter + nA := rfl
+    have hop' : sliceInstantiation as (reqSt (adv s newA nA) rA) = .ok (t, s2) := hop
+    rw [sliceInstantiation_specF] at hop'
+    injection hop' with hop'
+    injection hop' with e3 e4
+    subst er; subst e3
+    rw [ctxOf_reqSt, ctxOf_adv, hc, hvc] at e4 ⊢
+    refine ⟨((sahInitLines ("${" ++ ctx.hn (s.varCounter + nA) ++ "}") as 0).reverse ++
+        [Line.assign (ctx.hn (s.varCounter + nA)) ("_dv" ++ "${_dvc}"), .dvcIncr]) ++ newA,
+      nA + 1, rA.or ⟨!as.isEmpty, false, false⟩, by rw [es, ← e4]; simp only [adv_reqSt, reqSt_reqSt, adv_adv], ?_⟩
+    refine esim_then (k := 1) simA
+      (LinesOK.append (LinesOK.reverse (sahInitLines_ok _ _ _ _ _ _))
+        (LinesOK.cons (sline_helper _ _ _ _ _ rfl rfl) (LinesOK.cons (sline_special1 _ _ _ _ (by decide) rfl rfl) (LinesOK.nil _ _ _)))) ?_
+    intro fuel c res' hs
+    rcases src_sliceNew hs with ⟨f, k, c1, hx, hr⟩ | ⟨f, os, c1, vs, hx, hrv, hrange, hr⟩
+    · exact Or.inl ⟨f, k, c1, hx, hr⟩
+    · refine Or.inr ⟨f, os, c1, _, _, hx, hr, ?_⟩
+      intro m1 hi1 hh
+      exact sliceNew_post hi1 hh hrv hrange
   | .app _ _ _, _, _, _, hf, _, _ => by simp [fragE] at hf
-  | .sliceNew _ _, _, _, _, hf, _, _ => by simp [fragE] at hf
-  | .sliceEval _ _ _, _, _, _, hf, _, _ => by simp [fragE] at hf
-  | .substr _ _ _, _, _, _, hf, _, _ => by simp [fragE] at hf
-  | .len _, _, _, _, hf, _, _ => by simp [fragE] at hf
   | .exists_ _, _, _, _, hf, _, _ => by simp [fragE] at hf
   | .read _, _, _, _, hf, _, _ => by simp [fragE] at hf
   | .input _, _, _, _, hf, _, _ => by simp [fragE] at hf
-  | .copy _ _, _, _, _, hf, _, _ => by simp [fragE] at hf
   | .write _ _ _, _, _, _, hf, _, _ => by simp [fragE] at hf
   | .bad _, _, _, _, hf, _, _ => by simp [fragE] at hf
 
 theorem args_semF {ctx : Ctx} {T : List FEntry} {B : Nat} (hT : TableOK T) (hctx : CtxOK ctx T B) :
     ∀ (es : List Expr) (s : St) (ts : List String) (s' : St), fragEs (tnames T) es = true → ctxOf s = ctx →
       Tr.evalArgs conv es s = .ok (ts, s') →
-      ∃ new n, s' = adv s new n ∧ ESim ctx T B (fun f c => Src.evalArgs f es c) new s.varCounter n ts
+      ∃ new n rq, s' = reqSt (adv s new n) rq ∧ ESim ctx T B (fun f c => Src.evalArgs f es c) new s.varCounter n ts
   | [], s, ts, s', _, hc, h => by
     unfold Tr.evalArgs at h
     obtain ⟨er, es⟩ := pure_ok h
     subst er
-    refine ⟨[], 0, es, esim_leaf ctx T B _ _ _ ?_⟩
+    refine ⟨[], 0, Req.none, by rw [es, reqSt_none]; rfl, esim_leaf ctx T B _ _ _ ?_⟩
     intro fuel c res hs
     cases fuel with
     | zero => simp [Src.evalArgs] at hs
@@ -678,12 +833,12 @@ theorem args_semF {ctx : Ctx} {T : List FEntry} {B : Nat} (hT : TableOK T) (hctx
     obtain ⟨r, s1, h1, h⟩ := bind_ok h
     obtain ⟨rs, s2, h2, h⟩ := bind_ok h
     obtain ⟨er, es⟩ := pure_ok h
-    obtain ⟨newE, nE, e1, simE⟩ := expr_semF hT hctx e s r s1 hf.1 hc h1
+    obtain ⟨newE, nE, rE, e1, simE⟩ := expr_semF hT hctx e s r s1 hf.1 hc h1
     subst e1
-    obtain ⟨newR, nR, e2, simR⟩ := args_semF hT hctx rest (adv s newE nE) rs s2 hf.2 (by rw [ctxOf_adv]; exact hc) h2
+    obtain ⟨newR, nR, rR, e2, simR⟩ := args_semF hT hctx rest (reqSt (adv s newE nE) rE) rs s2 hf.2 hc h2
     subst e2
     subst er
-    exact ⟨newR ++ newE, nE + nR, by rw [es, adv_adv], esim_args_cons (esim_first simE) simR⟩
+    exact ⟨newR ++ newE, nE + nR, rE.or rR, by rw [es]; simp only [adv_reqSt, reqSt_reqSt, adv_adv], esim_args_cons (esim_first simE) simR⟩
 end
 
 end Tsh.Sem2
